@@ -4,7 +4,7 @@ use crate::dynamic::{val_eq, with_shape, DynOut, Leaf, Shape, Typed, Val, CONJUR
 use crate::space;
 use crate::wire;
 use rayon::prelude::*;
-use serde::Serialize;
+use serde::{Deserialize, Serialize};
 use serde_json::json;
 use std::io::Read;
 use vcommon::{Args, Report};
@@ -43,6 +43,13 @@ fn wrap<E: std::fmt::Display>(r: Result<DynOut, E>) -> DeResult {
     r.map(|d| d.0).map_err(|e| e.to_string())
 }
 
+/// drive a deserializer struct by hand: value first, then the end-of-input check
+fn direct<D, E1: std::fmt::Display, E2: std::fmt::Display>(mut de: D, value: impl FnOnce(&mut D) -> Result<DynOut, E1>, end: impl FnOnce(&mut D) -> Result<(), E2>) -> DeResult {
+    let v = value(&mut de).map_err(|e| e.to_string())?;
+    end(&mut de).map_err(|e| format!("end(): {}", e))?;
+    Ok(v.0)
+}
+
 pub fn json_de_paths(text: &[u8]) -> Vec<(&'static str, DeResult)> {
     let s = std::str::from_utf8(text).unwrap_or("");
     use conjure_serde::json as cj;
@@ -57,6 +64,13 @@ pub fn json_de_paths(text: &[u8]) -> Vec<(&'static str, DeResult)> {
         ("json:server_from_reader/1", wrap(cj::server_from_reader::<_, DynOut>(ShortReader { data: text, k: 1 }))),
         ("json:client_from_reader/2", wrap(cj::client_from_reader::<_, DynOut>(ShortReader { data: text, k: 2 }))),
         ("json:server_from_reader/2", wrap(cj::server_from_reader::<_, DynOut>(ShortReader { data: text, k: 2 }))),
+        // the deserializer structs driven by hand (deserialize, then end())
+        ("json:ClientDeserializer::from_str", direct(cj::ClientDeserializer::from_str(s), |d| DynOut::deserialize(d), |d| d.end())),
+        ("json:ClientDeserializer::from_slice", direct(cj::ClientDeserializer::from_slice(text), |d| DynOut::deserialize(d), |d| d.end())),
+        ("json:ClientDeserializer::from_reader", direct(cj::ClientDeserializer::from_reader(ShortReader { data: text, k: 3 }), |d| DynOut::deserialize(d), |d| d.end())),
+        ("json:ServerDeserializer::from_str", direct(cj::ServerDeserializer::from_str(s), |d| DynOut::deserialize(d), |d| d.end())),
+        ("json:ServerDeserializer::from_slice", direct(cj::ServerDeserializer::from_slice(text), |d| DynOut::deserialize(d), |d| d.end())),
+        ("json:ServerDeserializer::from_reader", direct(cj::ServerDeserializer::from_reader(ShortReader { data: text, k: 3 }), |d| DynOut::deserialize(d), |d| d.end())),
     ]
 }
 
@@ -75,6 +89,10 @@ pub fn smile_de_paths(bytes: &[u8]) -> Vec<(&'static str, DeResult)> {
         ("smile:server_from_reader/1", wrap(cs::server_from_reader::<_, DynOut>(ShortReader { data: bytes, k: 1 }))),
         ("smile:client_from_reader/2", wrap(cs::client_from_reader::<_, DynOut>(ShortReader { data: bytes, k: 2 }))),
         ("smile:server_from_reader/2", wrap(cs::server_from_reader::<_, DynOut>(ShortReader { data: bytes, k: 2 }))),
+        ("smile:ClientDeserializer::from_slice", direct(cs::ClientDeserializer::from_slice(bytes), |d| DynOut::deserialize(d), |d| d.end())),
+        ("smile:ServerDeserializer::from_slice", direct(cs::ServerDeserializer::from_slice(bytes), |d| DynOut::deserialize(d), |d| d.end())),
+        ("smile:ClientDeserializer::from_reader", direct(cs::ClientDeserializer::from_reader(ShortReader { data: bytes, k: 3 }), |d| DynOut::deserialize(d), |d| d.end())),
+        ("smile:ServerDeserializer::from_reader", direct(cs::ServerDeserializer::from_reader(ShortReader { data: bytes, k: 3 }), |d| DynOut::deserialize(d), |d| d.end())),
     ]
 }
 
@@ -156,6 +174,16 @@ pub fn check_case_tagged(shape: &Shape, val: &Val, r: &mut Report, tag: Option<&
         Ok(()) if w == a => {}
         other => fail(r, "json", "serializers-agree", "to_writer", format!("{}: to_writer = {:?} / {:?}, to_vec = {:?}", st, other.map_err(|e| e.to_string()), String::from_utf8_lossy(&w), String::from_utf8_lossy(&a))),
     }
+    {
+        use serde::Serialize as _;
+        let mut w1 = vec![];
+        let r1 = typed.serialize(&mut cj::Serializer::new(&mut w1)).map_err(|e| e.to_string());
+        let mut w2 = vec![];
+        let r2 = typed.serialize(&mut cj::Serializer::with_formatter(&mut w2, serde_json::ser::CompactFormatter)).map_err(|e| e.to_string());
+        if r1.is_err() || r2.is_err() || w1 != a || w2 != a {
+            fail(r, "json", "serializers-agree", "Serializer::new/with_formatter", format!("{}: Serializer::new -> {:?} {:?}, with_formatter -> {:?} {:?}, to_vec = {:?}", st, r1, String::from_utf8_lossy(&w1), r2, String::from_utf8_lossy(&w2), String::from_utf8_lossy(&a)));
+        }
+    }
     // (b) standard JSON in the Conjure encoding
     let parsed: Result<serde_json::Value, _> = serde_json::from_slice(&a);
     match &parsed {
@@ -209,6 +237,16 @@ pub fn check_case_tagged(shape: &Shape, val: &Val, r: &mut Report, tag: Option<&
     match cs::to_writer(&mut w, &typed) {
         Ok(()) if w == b => {}
         other => fail(r, "smile", "serializers-agree", "to_writer", format!("{}: smile to_writer differs from to_vec ({:?})", st, other.map_err(|e| e.to_string()))),
+    }
+    {
+        use serde::Serialize as _;
+        let mut w1 = vec![];
+        let mut ser = cs::Serializer::new(&mut w1);
+        let r1 = typed.serialize(&mut ser).map_err(|e| e.to_string());
+        drop(ser);
+        if r1.is_err() || w1 != b {
+            fail(r, "smile", "serializers-agree", "Serializer::new", format!("{}: smile Serializer::new differs from to_vec ({:?})", st, r1));
+        }
     }
     match serde_smile::from_slice::<serde_smile::value::Value>(&b) {
         Ok(tree) => {
